@@ -1560,8 +1560,10 @@ namespace link_layer {
                 defered_conn_event_counter_ = read_16bit( &body[ 10 ] );
                 commit = false;
 
-                if ( static_cast< std::uint16_t >( defered_conn_event_counter_ - this->connection_event_counter() + 1 ) & 0x8000
-                    || defered_conn_event_counter_ == this->connection_event_counter() + 1 )
+                // the instant must be in the future of the connection event that is currently handled:
+                // 1 <= instant - counter < 0x8000 (mod 0x10000)
+                if ( static_cast< std::uint16_t >( defered_conn_event_counter_ - this->connection_event_counter() - 1 ) >= 0x7fff
+                    || defered_conn_event_counter_ == static_cast< std::uint16_t >( this->connection_event_counter() + 1 ) )
                 {
                     disconnecting_reason_ = connection_instant_passed;
                     result = ll_result::disconnect;
@@ -1600,7 +1602,9 @@ namespace link_layer {
                 defered_conn_event_counter_ = read_16bit( &body[ 6 ] );
                 commit = false;
 
-                if ( static_cast< std::uint16_t >( defered_conn_event_counter_ - this->connection_event_counter() ) & 0x8000 )
+                // the instant must be in the future of the connection event that is currently handled:
+                // 1 <= instant - counter < 0x8000 (mod 0x10000)
+                if ( static_cast< std::uint16_t >( defered_conn_event_counter_ - this->connection_event_counter() - 1 ) >= 0x7fff )
                 {
                     disconnecting_reason_ = connection_instant_passed;
                     result = ll_result::disconnect;
@@ -1685,7 +1689,14 @@ namespace link_layer {
             }
             else if ( this->handle_phy_request( opcode, size, pdu, write, *this, commit ) )
             {
-                // all phy PDU handled in handle_phy_reqest
+                // all phy PDU handled in handle_phy_reqest, but a PHY update with an instant in the past
+                if ( !defered_ll_control_pdu_.empty()
+                  && static_cast< std::uint16_t >( defered_conn_event_counter_ - this->connection_event_counter() - 1 ) >= 0x7fff )
+                {
+                    defered_ll_control_pdu_ = write_buffer{ nullptr, 0 };
+                    disconnecting_reason_   = connection_instant_passed;
+                    result                  = ll_result::disconnect;
+                }
             }
             else if ( opcode != LL_UNKNOWN_RSP )
             {
